@@ -5,7 +5,7 @@ open List
 
 /-- the list of (anchor, class) _makeMarkToBaseAttachments collects for one glyph -/
 def baseBM (km : List (String × String)) (as : List NA) : List BAnchor :=
-  as.filterMap (fun a => if a.number.isSome then none else (classOf km a).map (fun c => ⟨a, c⟩))
+  (plainOf as).filterMap (fun a => if a.number.isSome then none else (classOf km a).map (fun c => ⟨a, c⟩))
 
 theorem baseAtts_eq {i : Input} {al : AList} {mg : List String} {km : List (String × String)}
     {att : String × List BAnchor} (h : att ∈ baseAtts i al mg km) :
@@ -33,14 +33,18 @@ theorem baseAtts_mem {i : Input} {al : AList} {mg : List String} {km : List (Str
   rw [if_neg (by simp [h2])]
   rfl
 
+theorem mem_plainOf_of {as : List NA} {a : NA} (ha : a ∈ as) (hp : a.ctx = none) : a ∈ plainOf as :=
+  mem_filter.mpr ⟨ha, by simp [hp]⟩
+
 theorem mem_baseBM {km : List (String × String)} {as : List NA} {a : NA} {c : String} (ha : a ∈ as)
-    (hn : a.number = none) (hc : classOf km a = some c) : ⟨a, c⟩ ∈ baseBM km as :=
-  mem_filterMap.mpr ⟨a, ha, by simp [hn, hc]⟩
+    (hp : a.ctx = none) (hn : a.number = none) (hc : classOf km a = some c) : ⟨a, c⟩ ∈ baseBM km as :=
+  mem_filterMap.mpr ⟨a, mem_plainOf_of ha hp, by simp [hn, hc]⟩
 
 /-- mark-to-base: for a pair on a non-mark glyph that passes the base filter, every feature whose glyph and
     anchor filters let the pair through has a lookup attaching it -/
 theorem base_attach {i : Input} {al : AList} (w : ALwf i al) {b m : String} {ab am : NA} (p : Pair al b m ab am)
-    (hok : markOK i m = true) (hnum : ab.number = none) (hnmg : b ∉ mgOf i al) (hbase : baseOK i b = true)
+    (hok : markOK i m = true) (hpl : ab.ctx = none) (hnum : ab.number = none) (hnmg : b ∉ mgOf i al)
+    (hbase : baseOK i b = true)
     (feat : String) (inc : String → Bool) (mf : NA → Bool) (hinc : inc b = true) (hmf : mf ab = true) :
     ∃ L ∈ baseLookups feat inc mf (gbOf i al), (attachLookup (build i al) L b m none).isSome = true := by
   -- the class
@@ -48,7 +52,7 @@ theorem base_attach {i : Input} {al : AList} (w : ALwf i al) {b m : String} {ab 
   obtain ⟨recs, hcls, r, hr, hrg⟩ := pair_class w p hok
   -- the attachment of glyph b
   obtain ⟨as', has', hab'⟩ := pair_prune_b w p
-  have hbm : (⟨ab, "MC" ++ am.name⟩ : BAnchor) ∈ baseBM (kmOf i al) as' := mem_baseBM hab' hnum hcl
+  have hbm : (⟨ab, "MC" ++ am.name⟩ : BAnchor) ∈ baseBM (kmOf i al) as' := mem_baseBM hab' hpl hnum hcl
   have hatt0 : (b, baseBM (kmOf i al) as') ∈ baOf i al := baseAtts_mem has' hnmg hbase (ne_nil_of_mem hbm)
   -- its group
   have hmem : members (clsOf i al) ("MC" ++ am.name) ≠ [] := by
